@@ -48,6 +48,8 @@ func c08Prelude() []string {
 		"cgen = () -> {\n  n = 100\n  yield () -> n\n  n = 200\n  yield () -> n\n}",
 		"mkhundred = () -> {\n  n = 100\n  () -> n\n}",
 		"kc = () -> 0",
+		// twelve variables this activation never assigns: whatever an earlier (failed) statement left in those cells, they are empty
+		"un = (c) -> {\n  if c {\n    ua = 1\n    ub = 1\n    uc = 1\n    ud = 1\n    ue = 1\n    uf = 1\n    ug = 1\n    uh = 1\n    ui = 1\n    uj = 1\n    uk = 1\n    ul = 1\n  }\n  [toa(ua), toa(ub), toa(uc), toa(ud), toa(ue), toa(uf), toa(ug), toa(uh), toa(ui), toa(uj), toa(uk), toa(ul)]\n}",
 	}
 }
 
@@ -91,6 +93,7 @@ func c08Alphabet() []c08Stmt {
 
 func c08Observers() []string {
 	return []string{
+		"un(false)",
 		"[g, arr, s]",
 		"wd(7)",
 		"clg(3)",
@@ -208,7 +211,7 @@ func init() {
 	core.Register(&core.Check{
 		ID:    "C08",
 		Level: "model_checking",
-		Rule: "explicit-state search over session histories: all sequences of length <= 2, and a third of those of length 3 (quick) / all of length <= 4 (thorough) over 33 statements (4 good ones; lexer, parser and unbalanced-input errors; every runtime error class at top level, at call depth 3, in a for / while body, in a generator suspended after a yield, in a nested generator, in the second iterator of a zip, in a closure call, after deep recursion, with partial global effects; after writing output; in a loop body that stored a closure handed out by a suspended generator; a top-level return out of nested loops), each history followed by 14 observers (globals, calls, a summing loop, a generator composition, a zip over a failing generator, 300-deep recursion, an escaped closure, a further update). " +
+		Rule: "explicit-state search over session histories: all sequences of length <= 2, and a third of those of length 3 (quick) / all of length <= 4 (thorough) over 33 statements (4 good ones; lexer, parser and unbalanced-input errors; every runtime error class at top level, at call depth 3, in a for / while body, in a generator suspended after a yield, in a nested generator, in the second iterator of a zip, in a closure call, after deep recursion, with partial global effects; after writing output; in a loop body that stored a closure handed out by a suspended generator; a top-level return out of nested loops), each history followed by 15 observers (a call that reads twelve variables it never assigned, globals, calls, a summing loop, a generator composition, a zip over a failing generator, 300-deep recursion, an escaped closure, a further update). " +
 			"Every history is replayed on a fresh real VM; oracle per transition: value/output/error of every statement equal the reference model's; through the hooks the machine is at rest after every statement (sp 0, no frames, no closure frames, no live contexts, ip at end of code); the observers answer exactly as in the failure-free twin session that performs only the documented global effects. states = distinct (reference global store, machine state) after a history; transitions = history extensions executed",
 		Assumptions: []string{"states are reported for coverage only; no pruning is done at these depths, every history is executed in full", "stdin is /dev/null, so read() is the read error case"},
 		Exec: func(payload string) (string, string) {
